@@ -11,7 +11,7 @@ d, l1, l2, rnd = sys.argv[1:5]
 jobs = int(sys.argv[5]) if len(sys.argv) > 5 else 4
 slots = queue.Queue()
 for i in range(jobs):
-    slots.put('s%d' % i)
+    slots.put('%s%d' % (os.environ.get('VF_SLOT_PREFIX', 's'), i))
 FEATS = {}
 
 
